@@ -117,6 +117,12 @@ class FakeTime:
         self.env = env
 
     def time(self):
+        # (`tick_at_read`: the wall clock moves on to the next second at the k-th reading -- construction at the end of a second)
+        k = getattr(self.env, "tick_at_read", None)
+        if k is not None:
+            self.env.time_reads = getattr(self.env, "time_reads", 0) + 1
+            if self.env.time_reads == k:
+                self.env.now += 1
         return float(self.env.now)
 
     def monotonic(self):
